@@ -33,24 +33,27 @@ CONSTANTS MaxBlock,      \* block sizes 1..MaxBlock
           Ms,            \* results per element request
           Takes,         \* run elements: 0 = reads its whole flow, t = stops after t values
           SplitBufs,     \* sequence of Split bufsizes around the adapter
+          Srcs,          \* how the flow is handed to run: "iter" an iterator, "list" / "tuple" a re-iterable container
           Variant
 
 SplitBufsQuick == <<1, 2, 3, 4, 5, 1000, None>>
 SplitBufsThorough == <<1, 2, 3, 4, 5, 6, 7, 8, 9, 1000, None>>
 
-VARIABLES cfg, drv, N,
+VARIABLES cfg, drv, N, src,
           s, k, outs, h, since,        \* fill/request driver
           pos, rel, out, phase         \* run driver
-vars == <<cfg, drv, N, s, k, outs, h, since, pos, rel, out, phase>>
+vars == <<cfg, drv, N, src, s, k, outs, h, since, pos, rel, out, phase>>
 
 Cfgs == {[n |-> n, bufIn |-> b, reset |-> r, yor |-> y, kind |-> kd, m |-> m, pv |-> pv, take |-> tk] :
            n \in 1..MaxBlock, b \in BOOLEAN, r \in BOOLEAN, y \in BOOLEAN,
-           kd \in {"fc", "fr", "run", "both"}, m \in Ms, pv \in BOOLEAN, tk \in Takes}
+           kd \in {"fc", "fr", "run", "both", "frc"}, m \in Ms, pv \in BOOLEAN, tk \in Takes}
 
 Init == /\ drv \in {"free", "run"} /\ cfg \in Cfgs
         /\ cfg.pv => (cfg.kind = "run" /\ drv = "run")
         /\ cfg.take > 0 => (cfg.kind = "run" /\ drv = "run" /\ cfg.take < cfg.n)
         /\ drv = "free" => cfg.kind # "run"
+        /\ cfg.kind \in {"both", "frc"} => cfg.m = 1
+        /\ src \in (IF drv = "run" THEN Srcs ELSE {"iter"})
         /\ N \in (IF drv = "run" THEN 0..MaxLen ELSE {0})
         /\ s = S0 /\ k = 0 /\ outs = <<>> /\ h = <<>> /\ since = 0
         /\ pos = 0 /\ rel = <<>> /\ out = <<>> /\ phase = (IF drv = "run" THEN "loop" ELSE "calls")
@@ -95,7 +98,7 @@ CanCall == drv = "free" /\ Len(h) < MaxOps /\ ~s.hung
 FillCall == /\ CanCall
             /\ s' = DoFill(k) /\ k' = k + 1 /\ since' = since + 1
             /\ h' = Append(h, [op |-> "f", res |-> <<>>, nf |-> Len(s'.fills), hung |-> s'.hung])
-            /\ UNCHANGED <<cfg, drv, N, outs>> /\ RunFixed
+            /\ UNCHANGED <<cfg, drv, N, src, outs>> /\ RunFixed
 FillPlain == /\ FillKind(cfg, s) = "plain" /\ FillCall
 FillBufferIn == /\ FillKind(cfg, s) = "in" /\ FillCall
 FillBufferOut == /\ FillKind(cfg, s) = "out" /\ FillCall
@@ -104,7 +107,7 @@ Request == /\ CanCall
               /\ s' = r.s /\ outs' = outs \o r.res
               /\ h' = Append(h, [op |-> "r", res |-> r.res, nf |-> Len(r.s.fills), hung |-> FALSE])
            /\ since' = 0
-           /\ UNCHANGED <<cfg, drv, N, k>> /\ RunFixed
+           /\ UNCHANGED <<cfg, drv, N, src, k>> /\ RunFixed
 
 (***************************************************************************)
 (* run driver.                                                             *)
@@ -116,16 +119,16 @@ RunBlock == /\ drv = "run" /\ phase = "loop" /\ N - pos >= cfg.n
                /\ out' = out \o PerValue(cfg, blk) \o Res(cfg, rel \o blk)
                /\ rel' = AfterYield(cfg, rel \o blk)
             /\ pos' = pos + cfg.n
-            /\ UNCHANGED <<cfg, drv, N, phase>> /\ FreeFixed
+            /\ UNCHANGED <<cfg, drv, N, src, phase>> /\ FreeFixed
 RunRemainder == /\ drv = "run" /\ phase = "loop" /\ pos < N /\ N - pos < cfg.n
                 /\ LET blk == Taken(cfg, Blk(pos, N - pos)) IN
                    IF cfg.yor THEN /\ out' = out \o PerValue(cfg, blk) \o Res(cfg, rel \o blk)
                                    /\ rel' = rel \o blk
                    ELSE UNCHANGED <<out, rel>>
                 /\ pos' = N /\ phase' = "done"
-                /\ UNCHANGED <<cfg, drv, N>> /\ FreeFixed
+                /\ UNCHANGED <<cfg, drv, N, src>> /\ FreeFixed
 RunEnd == /\ drv = "run" /\ phase = "loop" /\ pos = N /\ phase' = "done"
-          /\ UNCHANGED <<cfg, drv, N, pos, rel, out>> /\ FreeFixed
+          /\ UNCHANGED <<cfg, drv, N, src, pos, rel, out>> /\ FreeFixed
 
 Next == FillPlain \/ FillBufferIn \/ FillBufferOut \/ Request \/ RunBlock \/ RunRemainder \/ RunEnd
 Spec == Init /\ [][Next]_vars
@@ -138,7 +141,8 @@ RunDone == drv = "run" /\ phase = "done"
 Free == drv = "free"
 LastIsRequest == h # <<>> /\ h[Len(h)].op = "r"
 
-\* run yields block by block what the element yields for consecutive blocks
+\* run yields block by block what the element yields for consecutive blocks - whether the flow is an
+\* iterator or a container that can be iterated again (src is not mentioned: the result may not depend on it)
 RunIsBlocks == RunDone => out = RunSem(cfg, Iota(N))
 RunPrefix == drv = "run" => IsPrefix(out, RunSem(cfg, Iota(N)))
 EmptyFlowNothing == (RunDone /\ N = 0) => out = <<>>
@@ -174,9 +178,9 @@ SecondRequestEmpty == (Free /\ Len(h) >= 2 /\ h[Len(h)].op = "r" /\ h[Len(h) - 1
                          => h[Len(h)].res = <<>>
 
 \* Split around the adapter, with any bufsize (dividing the block size or not), and FillRequestSeq
-SplitEqRun == (RunDone /\ cfg.kind \in {"fc", "fr"} /\ ~cfg.yor) =>
+SplitEqRun == (RunDone /\ cfg.kind \in {"fc", "fr", "frc"} /\ ~cfg.yor) =>
    \A j \in 1..Len(SplitBufs) : SplitAround(cfg, Iota(N), SplitBufs[j]) = RunSem(cfg, Iota(N))
-SeqEqRun == (RunDone /\ cfg.kind \in {"fc", "fr"} /\ ~cfg.yor) =>
+SeqEqRun == (RunDone /\ cfg.kind \in {"fc", "fr", "frc"} /\ ~cfg.yor) =>
    \A n2 \in 1..MaxBlock :
       /\ FRSeqRun(cfg, Iota(N), n2, FALSE) = RunSem(cfg, Complete(cfg, Iota(n2 * (N \div n2))))
       /\ FRSeqRun(cfg, Iota(N), n2, TRUE) = RunSem(cfg, Iota(N))
@@ -191,10 +195,10 @@ SeqCases == [j \in 1..(2 * MaxBlock) |->
                IN [n2 |-> n2, oyor |-> oy, out |-> FRSeqRun(cfg, Iota(N), n2, oy)]]
 Emitted ==
   /\ (Free /\ Len(h) = MaxOps) => PrintT(ToJson([t |-> "fr", cfg |-> cfg, h |-> h]))
-  /\ RunDone => PrintT(ToJson([t |-> "run", cfg |-> cfg, N |-> N, out |-> out,
-        split |-> IF cfg.kind \in {"fc", "fr"}
+  /\ RunDone => PrintT(ToJson([t |-> "run", cfg |-> cfg, N |-> N, src |-> src, out |-> out,
+        split |-> IF src = "iter" /\ cfg.kind \in {"fc", "fr", "frc"}
                   THEN [j \in 1..Len(SplitBufs) |->
                           [bs |-> SplitBufs[j], out |-> SplitAround(cfg, Iota(N), SplitBufs[j])]]
                   ELSE <<>>,
-        seq |-> IF cfg.kind \in {"fc", "fr"} THEN SeqCases ELSE <<>>]))
+        seq |-> IF src = "iter" /\ cfg.kind \in {"fc", "fr", "frc"} THEN SeqCases ELSE <<>>]))
 =============================================================================
